@@ -544,16 +544,18 @@ def edit_work(params):
     return acc
 
 
-def check(spec, case, want_valid=None, acc=None, insert=False):
+def check(spec, case, want_valid=None, acc=None, insert=False, same_id=None):
     probs = []
-    if not insert and e3.size(spec) <= 80:
+    if not insert and same_id is None and e3.size(spec) <= 80:
         # the same tree assembled with add_child(child, index) must evaluate the same
         probs += check(spec, dict(case, built_with="add_child(child, index)"), acc=None, insert=True)
+        # ... and so must distinct node objects that all carry one node id (evaluation is about the nodes of the tree)
+        probs += check(spec, dict(case, built_with="one id shared by all nodes"), acc=None, same_id="dup")
 
     def bad(kind, exp, obs, **sig):
         probs.append(problem(kind, case, expected=exp, observed=obs, **sig))
     core.reset_store()
-    root = witness.build(spec, insert=insert)
+    root = witness.build(spec, insert=insert, same_id=same_id)
     nodes = witness.preorder(root)
     pathmap = {}
 
@@ -562,6 +564,17 @@ def check(spec, case, want_valid=None, acc=None, insert=False):
         for i, c in enumerate(n.children):
             walk(c, path + (i,))
     walk(root, ())
+    if same_id is None and not insert and len(nodes) > 2:
+        # edits that fail (asking a node to remove / shift / replace something that is not its child) come first: a failed
+        # edit leaves the tree as it was, so the evaluation that follows is that of the tree
+        for victim in nodes[2:6]:
+            if victim.parent is not root:
+                for attempt in (lambda: root.remove_child(victim), lambda: root.replace_child(victim, Node("zzNew")),
+                                lambda: root.child_index(victim)):
+                    try:
+                        attempt()
+                    except Exception:  # noqa
+                        pass
     sentinel = ("earlier", "entry", None)
     warnings = [sentinel]
     try:
